@@ -66,10 +66,20 @@ impl Scenario for SignSc {
             "grid" if lengths => {}
             "grid-keys" => {
                 // every limb-pattern key x every key codec; group and scheme rotate
-                let i = index % (crate::env::LIMB_KEYS * 8);
-                p.set("key_class", (crate::env::LIMB_KEY_BASE + i / 8) as i64);
-                p.set("sk_codec", (i % 8) as i64);
-                p.set("g", ((i / 8 + i) % 2) as i64);
+                let edge_n = (crate::env::EDGE_SCALARS_G1.len() + crate::env::EDGE_SCALARS_G2.len()) as u64;
+                let i = index % (crate::env::LIMB_KEYS * 8 + edge_n * 16);
+                if i < crate::env::LIMB_KEYS * 8 {
+                    p.set("key_class", (crate::env::LIMB_KEY_BASE + i / 8) as i64);
+                    p.set("sk_codec", (i % 8) as i64);
+                    p.set("g", ((i / 8 + i) % 2) as i64);
+                } else {
+                    // keys whose public key has an extreme leading coordinate word, in both groups, every key codec
+                    // (the public key and signature travel in the drawn wire codec and one more)
+                    let j = i - crate::env::LIMB_KEYS * 8;
+                    p.set("key_class", (crate::env::LIMB_KEY_BASE + crate::env::LIMB_KEYS + j / 16) as i64);
+                    p.set("sk_codec", (j % 8) as i64);
+                    p.set("g", ((j / 8) % 2) as i64);
+                }
                 p.set("scheme", ((i / 16) % 3) as i64);
                 p.set("msg_class", *x.pick(&[1i64, 2, 3, 16, 17]));
             }
